@@ -10,8 +10,11 @@ namespace DarkluaModel.Sem.Heap
 variable {N : NumOps} {Q : QRel} {cx : Cx} {β : CellRel}
 
 /-- the call handler maps related closures / states to related results -/
-def CallOK (Q : QRel) (cx : Cx) (call : CallFn N) : Prop :=
-  ∀ (β : CellRel) c c' args σ σ', CRel Q cx β c c' → SRel Q cx β σ σ' → RRel Q cx β AEq (call c args σ) (call c' args σ')
+structure CallOK (Q : QRel) (cx : Cx) (call : CallFn N) : Prop where
+  /-- the context's assumption on the call handler -/
+  cf : cx.CF N call
+  rel : ∀ (β : CellRel) c c' args σ σ', CRel Q cx β c c' → SRel Q cx β σ σ' →
+    RRel Q cx β AEq (call c args σ) (call c' args σ')
 
 /-- closes a leaf goal `RRel Q cx β AEq (.ok a σ₁) (.ok a σ₂)` etc. from an `SRel` hypothesis in context -/
 macro "rr_leaf" : tactic => `(tactic| first
@@ -48,7 +51,7 @@ theorem callVal_succ (hc : CallOK Q cx call) {d : Nat} (ih : LibP Q cx call ρ d
     cases h1 : σ.closures[id]? <;> cases h2 : σ'.closures[id]? <;> rw [h1, h2] at hg <;>
       simp only [OptRel] at hg
     · exact RRel.errS h
-    · exact hc _ _ _ _ _ _ hg h
+    · exact hc.rel _ _ _ _ _ _ hg h
   | builtin name =>
     simp only [callVal]
     split
@@ -108,6 +111,8 @@ theorem libCall_succ {d : Nat} (ih : LibP Q cx call ρ d) (name : String) (args 
       exact ⟨β', hle, by rw [show _ = _ from ha]; rfl, hs⟩
     · obtain ⟨hv, β', hle, hs⟩ := hr
       exact ⟨β', hle, by rw [hv]; rfl, hs⟩
+    · exact hr
+    · exact hr
   · -- string.format
     split
     · exact RRel.bindEq (ih.formatAux _ _ _ _ _ h) fun _ _ _ _ _ hs => RRel.okEq hs
